@@ -71,17 +71,24 @@ class FtAction:
     simulated containers (so it is logged and can be failed on schedule).  Holds the
     root containers only (picklable together with the manager)."""
 
-    def __init__(self, roots, name, deps, targets, coefs):
+    def __init__(self, roots, name, deps, targets, coefs, refs=None):
         self.roots, self.name, self.deps, self.targets, self.coefs = roots, name, deps, targets, coefs
+        # refs: the action assigns its results through the manager's references (as the action of tests/test_tasks.py
+        # does: ref['c'] = ...), i.e. an assignment from inside a running update, instead of writing the container
+        self.refs = refs
 
     def __call__(self):
         C._event("act", 0, self.name)
         vals = [user_get(self.roots, d) for d in self.deps]
-        for row, t in zip(self.coefs, self.targets):
+        for j, (row, t) in enumerate(zip(self.coefs, self.targets)):
             tot = row[-1]
             for c, v in zip(row, vals):
                 tot = tot + c * v
-            user_set(self.roots, t, tot)
+            if self.refs is not None:
+                r = self.refs[j]
+                r._manager.set_value(r, tot)
+            else:
+                user_set(self.roots, t, tot)
 
 
 class World:
@@ -294,7 +301,8 @@ class World:
             for t in targets:
                 # as lists, an enclosing container shared by two targets is listed twice
                 (ttar.extend if aslist else ttar.update)(self.ref(p) for p in prefixes(t))
-            act = FtAction(self.basecont, name, deps, targets, coefs)
+            via = len(op) > 7 and op[7] and not (len(op) > 5 and op[5])
+            act = FtAction(self.basecont, name, deps, targets, coefs, refs=[self.ref(t) for t in targets] if via else None)
             reftid = len(op) > 5 and op[5]
             task = self.xd.tasks.FunctionTask(self.ref(targets[0]) if reftid else "f:%s" % name, act, ttar, tdeps)
             mgr.register(task)
